@@ -151,8 +151,9 @@ let mk_oracles (orc_tok : string) (env_tok : string) (prop_tok : string) =
       | OInt bits -> "I" ^ string_of_n bits in
     match look kind s with Some r -> Some (z_of_string r) | None -> None in
   let orcq (s : n list) : q option = match look "F" s with Some r -> Some (q_of_string r) | None -> None in
-  let env (name : n list) : n list option =
-    match Hashtbl.find_opt e (string_of_str name) with Some h -> Some (str_of_hex h) | None -> None in
+  (* the environment of the case as a list of NAME=value entries; the model looks the name up itself *)
+  let envl = Hashtbl.fold (fun k h acc -> (str_of_string k, str_of_hex h) :: acc) e [] in
+  let env = env_of_list envl in
   (* the property files of the case, verbatim; the model reads them itself *)
   let files (file : n list) : n list option =
     match Hashtbl.find_opt p (string_of_str file) with Some h -> Some (str_of_hex h) | None -> None in
@@ -271,6 +272,18 @@ let predict_prop (f : string array) (obs : string) : string * string * bool =
     else if pred = "err" then "BAD:missing-property-resolved"
     else if obs = "err" then "BAD:property-not-found"
     else "BAD:property-data-wrong" in
+  (pred, verdict, true)
+
+let predict_env (f : string array) (obs : string) : string * string * bool =
+  let e = parse_table f.(1) and name = str_of_hex f.(2) in
+  let envl = Hashtbl.fold (fun k h acc -> (str_of_string k, str_of_hex h) :: acc) e [] in
+  let pred = (match env_of_list envl name with Some v -> "ok " ^ hex_of_str v | None -> "err") in
+  (* env_of_list is the specification (C17_environment: the first entry named exactly so, else unset): compared directly *)
+  let verdict =
+    if obs = pred then "ok"
+    else if pred = "err" then "BAD:unset-variable-resolved"
+    else if obs = "err" then "BAD:variable-not-found"
+    else "BAD:variable-value-wrong" in
   (pred, verdict, true)
 
 (* ---- schema tokens of the case kind typed (grammar in harness/cmd/hC17/typed.go) *)
@@ -418,6 +431,7 @@ let predict (c : string) (obs : string) : string * string * bool =
   let kind = f.(0) in
   if kind = "hdr" && Array.length f = 3 then predict_hdr f obs else
   if kind = "prop" && Array.length f = 3 then predict_prop f obs else
+  if kind = "env" && Array.length f = 3 then predict_env f obs else
   if kind = "app" && Array.length f = 9 then predict_app f obs else
   let off = if kind = "comp" then 3 else if kind = "typed" then 2 else 1 in
   if Array.length f <> off + 6 then ("bad-case", "BAD:bad-case", false) else
@@ -512,6 +526,24 @@ let predict (c : string) (obs : string) : string * string * bool =
                        | Some (cs, d) ->
                            if validate orc d cs then ("ok", false)
                            else if obs = "err" then ("ok", true) else ("BAD:invalid-defaults-accepted", true)
+                       | None -> ("ok", false))
+                  | None -> ("BAD:bad-path", false))
+             | _ -> ("BAD:bad-path", false))
+        | "rel" ->
+            (* relations between options enforced by the constructor: evaluated on the model's decoding of the written
+               section onto the registered default *)
+            (match reach gen_registry false false path [] schema dflt tree with
+             | Some (((SPlugin (iface, _), _), _), VMap kvs) ->
+                 (match plugin_entry gen_registry iface kvs with
+                  | Some e ->
+                      (match e.e_conf with
+                       | Some (cs, d) ->
+                           let sec = VMap (List.filter (fun kv -> not (is_type_key kv)) kvs) in
+                           (match decode env prop orc orcq gen_registry model_factory_lazy (fuel_for sec) cs d sec with
+                            | Ok (CStruct rs) ->
+                                if ctor_rels (flat_fields cs) rs then ("ok", false)
+                                else if obs = "err" then ("ok", true) else ("BAD:conflicting-options-accepted", true)
+                            | _ -> ("ok", false))
                        | None -> ("ok", false))
                   | None -> ("BAD:bad-path", false))
              | _ -> ("BAD:bad-path", false))
